@@ -416,14 +416,21 @@ impl SegmentAllocator {
         let header = SegmentHeader::generate(new_index, &self.path_hash);
         let header_bytes = header.to_bytes();
 
-        // Write the segment header to the new data file
+        // Write the segment header to the new data file. `create_new`: a file of that
+        // name which this allocator does not know about (the directory was not loaded,
+        // or changed since) holds somebody's archive data and must not be replaced.
         let data_path = segment_data_path(&self.base_path, new_index);
-        std::fs::write(&data_path, header_bytes).map_err(|e| {
-            crate::StorageError::Archive(format!(
-                "failed to create segment file {}: {e}",
-                data_path.display()
-            ))
-        })?;
+        std::fs::OpenOptions::new()
+            .write(true)
+            .create_new(true)
+            .open(&data_path)
+            .and_then(|mut file| std::io::Write::write_all(&mut file, &header_bytes))
+            .map_err(|e| {
+                crate::StorageError::Archive(format!(
+                    "failed to create segment file {}: {e}",
+                    data_path.display()
+                ))
+            })?;
 
         let mut info = SegmentInfo::new(new_index, header);
         // write_position starts after the header (set by SegmentInfo::new)
